@@ -500,6 +500,7 @@ func c16Compacted(o Opts, rng *Rng, res *Result) error {
 		if windows {
 			nloads = 3 + rng.Intn(4)
 		}
+		var edges []int
 		for ld := 0; ld < nloads; ld++ {
 			var sb strings.Builder
 			cnt, lo := per, 0
@@ -507,10 +508,28 @@ func c16Compacted(o Opts, rng *Rng, res *Result) error {
 				span := per * nloads
 				cnt = 8 + rng.Intn(per)
 				lo = rng.Intn(span - cnt + 1)
-				if ld == 1 {
-					// reaches below and stays inside the upper part of an earlier window or not: random
-					lo = rng.Intn(span/4 + 1)
+				// the first three windows form a chain in which the object listed first
+				// (largest max on a descending pool, smallest min on an ascending one)
+				// does not reach the far end of the second, and the third overlaps only
+				// the second: [.5,1] [.1,.9] [.2,.4] of the span, mirrored for ascending
+				// pools, each end moved by a few keys
+				frac := [][2]int{{50, 100}, {10, 90}, {20, 40}}
+				if ld < 3 {
+					a, b := frac[ld][0], frac[ld][1]
+					if !desc {
+						a, b = 100-b, 100-a
+					}
+					lo = span*a/100 + rng.Intn(5)
+					cnt = span*(b-a)/100 - rng.Intn(5)
+					if lo+cnt > span {
+						cnt = span - lo
+					}
 				}
+			}
+			if windows {
+				edges = append(edges, base+lo, base+lo+cnt-1)
+			} else {
+				edges = append(edges, base+ld, base+(cnt-1)*nloads+ld)
 			}
 			for i := 0; i < cnt; i++ {
 				k := base + i*nloads + ld // the loads interleave key by key
@@ -518,7 +537,9 @@ func c16Compacted(o Opts, rng *Rng, res *Result) error {
 					k = base + lo + i
 				}
 				v := fmt.Sprintf("{k:%d,j:%d,id:%d}", k, i%3, it*100000+ld*10000+i)
-				if i%97 == 5 {
+				// (a null key makes an object's range reach the null end of the pool and
+				// overlap everything: in the window layouts only the later loads have one)
+				if i%97 == 5 && (!windows || ld >= 3) {
 					v = fmt.Sprintf("{k:null,j:%d,id:%d}", i%3, it*100000+ld*10000+i)
 				}
 				all = append(all, v)
@@ -542,9 +563,18 @@ func c16Compacted(o Opts, rng *Rng, res *Result) error {
 			return fmt.Errorf("compact: %w", err)
 		}
 		hi := base + per*nloads
-		for q := 0; q < 60; q++ {
+		// the ends of every load's key window (and of the whole pool) are where a
+		// compacted object's recorded range or a seek entry can be off by one object
+		var probes []int
+		for _, e := range edges {
+			probes = append(probes, e-1, e, e+1)
+		}
+		for q := 0; q < 60+len(probes); q++ {
 			a := base - 2 + rng.Intn(per*nloads+4)
 			w := 1 + rng.Intn(6)
+			if q >= 60 {
+				a, w = probes[q-60], 2
+			}
 			var src string
 			switch q % 5 {
 			case 0:
